@@ -185,6 +185,11 @@ def rrset_truth_oracle(req, ans):
     if len(t) == 4 and t[3].startswith("exp="):
         exp = t[3][4:]
         got = ans.replace(" ", ":", 1)
+        if exp == "gate":
+            if ans.startswith("ok"):
+                return ("a record set was returned although a gate is closed in the message as generated (QR / TC / QDCOUNT / "
+                        "12-bit extended RCODE = header RCODE | OPT extension << 4)")
+            return None
         if exp.startswith("err:"):
             if got != exp:
                 return "expected %s, got %s" % (exp, got[:120])
@@ -950,7 +955,7 @@ PROPS = {
                    "bit fields of the generated (source-extracted) expressions. Oracle: gates read straight from the request's header bytes.",
         level_note="`extended RCODE` = header RCODE | (ext << 4) with ext from the first OPT record after the answer section, as the code "
                    "does. Trusted: Lean kernel; model of record_set.rs/reader.rs (validated by the `rrset` stream); tools/extract.py.",
-        streams=[dict(name="rrset", impl_oracle=rrset_gate_oracle, quick=25000)],
+        streams=[dict(name="rrset", impl_oracle=rrset_truth_oracle, quick=25000)],
         explanation="C07: rrset_gates + rrset_err_* theorems; stream `rrset` covers all gate combinations and OPT placements.",
     ),
     "C18": dict(
@@ -1018,9 +1023,11 @@ PROPS = {
         explanation="C14: readExact_spec, tcp_closed_form, tcp_split_invariant, tcp_exact, tcp_short_buffer, tcp_early_close.",
     ),
     "C15": dict(
-        level="other", module="Rsdns.Props.C15",
+        level="proof", module="Rsdns.Props.C15",
         technique="Lean 4 theorems about the clients' deadline logic over an idealised clock (runtime timers assumed) + timing oracle on the four real clients",
-        level_text="Theorems about the modelled deadline machine: the UDP exchange ends by the lifetime; queries are re-sent at 0,T,2T,…; "
+        level_text="PARTIAL proof — the theorems are about the clients' deadline logic over an idealised clock; that the runtimes' timers, "
+                   "the kernel's socket timeouts and the scheduler keep real time is assumed and watched by the timing oracle. "
+                   "Theorems about the modelled deadline machine: the UDP exchange ends by the lifetime; queries are re-sent at 0,T,2T,…; "
                    "non-matching datagrams cannot end it with anything but Timeout; retries off ⇒ one datagram; the blocking client never "
                    "asks for a zero socket timeout. Real clients: silence, decoys at chosen offsets, paced floods across every "
                    "per-attempt deadline, delayed answers, stalled and slow-drip TCP; oracle on result kind, duration ≤ lifetime + 150 ms, "
@@ -1032,9 +1039,11 @@ PROPS = {
         explanation="C15: ends_by, sends_schedule, no_retries, junk_only_times_out, std_timeout_never_zero.",
     ),
     "C16": dict(
-        level="other", module="Rsdns.Props.C16",
+        level="proof", module="Rsdns.Props.C16",
         technique="Lean 4 theorems about the state a client carries between queries (internal buffer, socket queue) + query histories on the four real clients",
-        level_text="Theorems: take_buf is sound from any buffer state (also the one a dropped future leaves); what query_rrset parses is "
+        level_text="PARTIAL proof — the theorems are about the state a client carries between queries (internal buffer, what the socket "
+                   "may still deliver); the sockets themselves are modelled as scripts. "
+                   "Theorems: take_buf is sound from any buffer state (also the one a dropped future leaves); what query_rrset parses is "
                    "exactly the response, independent of buffer junk; the typed query equals from_msg on the raw query's bytes; a datagram "
                    "handed out always carries the current query's ID and question. Real clients: histories of 2–5 queries mixing answered, "
                    "timed out, invalid, malformed, oversized, late duplicates, dropped futures; results compared with the model.",
@@ -1087,7 +1096,7 @@ PROPS = {
                    "borrowed vs owned headers and skip vs raw vs typed data positions: C09.pair_follows_pass; typed random access: "
                    "C10.at_closed_form. Comparison involving MessageReader views is limited to ≤ 65535 bytes (MessageReader::new refuses more).",
         streams=[dict(name="views"), dict(name="nameeq", impl_oracle=nameeq_oracle)],
-        explanation="C08: iter_agrees_with_pass (Props/C08Views.lean), nameref_eq_decoded, nameRefEqLoop_spec, eqLabels_iff_nameEq, read_kinds_agree, skip_of_read, walk_congr_mode; streams `views` and `nameeq`.",
+        explanation="C08: iter_agrees_with_pass, data_eq_dataAt, dataBytes_eq_dataBytesAt (Props/C08Views.lean), nameref_eq_decoded, nameRefEqLoop_spec, eqLabels_iff_nameEq, read_kinds_agree, skip_of_read, walk_congr_mode; streams `views` and `nameeq`.",
     ),
     "C10": dict(
         level="proof", module="Rsdns.Props.C10",
